@@ -217,6 +217,8 @@ def plan(tier, seed):
     pl.cases = aht_cases()
     pl.canaries = [canary()]
     pl.finite = [("C13-U/uniform-loops", lambda: uniform.check(LOOPS))]
+    from vfkit import lean as _lean
+    pl.finite.append(("A5/Lean re-check of the lifting lemmas for operand runs", _lean.lemma_check))
     n = 5 if tier == "quick" else 6
 
     def roundtrip():
